@@ -3,7 +3,7 @@
 import re, random
 from . import common as C
 from .runner import Prop, Batch
-from .frpgen import Profile, gen_scripts, is_K1
+from .frpgen import Profile, gen_scripts, is_K1, is_K5, is_K3_leak
 
 
 def strip_ann(lines):
@@ -50,6 +50,10 @@ class FrpProp(Prop):
     def known_class(self, batch, name, lines, out, why):
         if is_K1(lines):
             return "K1"
+        if "still alive after every handle was dropped" in why and is_K5(lines):
+            return "K5"
+        if "still alive after every handle was dropped" in why and is_K3_leak(lines):
+            return "K3"
         return None
 
     spec_is_oracle = True
